@@ -442,6 +442,11 @@ func runC04(c *core.Ctx) {
 			c.Count("elemtype:float-hash-sets", 1)
 		}
 		runSetHistory(c, FKeyDom(c.R.Range(4, 14)), i)
+	case i%13 == 7:
+		// int members from the whole range of the type (negatives, extremes,
+		// pairs further apart than MaxInt)
+		c.Count("elemtype:wide-int", 1)
+		runSetHistory(c, WideIntDom(c.R, c.R.Range(3, 14)), i)
 	default:
 		runSetHistory(c, IntDom(c.R.Range(2, 10)), i)
 	}
@@ -468,6 +473,7 @@ func init() {
 			f.atLeast("obs:Values", 100000)
 			f.atLeast("obs:huge-hash-cases", 4)
 			f.atLeast("obs:Contains-members-with-repeats", 10000)
+			f.atLeast("elemtype:wide-int", 500)
 			f.atLeast("ctor:builtin-comparator", 500)
 			f.atLeast("obs:bulk-constructor-load", 1000)
 			f.atLeast("obs:bulk-add-into-empty", 1000)
